@@ -172,4 +172,99 @@ theorem conn_closed_at_most_once (ops : List COp) : ∀ (S) (c : Client), TInv c
       rw [h0]
       exact ⟨by omega, fun hall => by rw [i2 (fun o ho => hall o (List.mem_cons_of_mem _ ho))]⟩
 
+theorem connWrite_closeConn (c : Client) (raw : Bytes) : (c.connWrite raw).1.closeConn = c.closeConn := by
+  unfold Client.connWrite; split <;> rfl
+
+theorem start_closeConn (c : Client) (id : TID) (raw : Bytes) (h : Option Nat) :
+    (c.start id raw h).1.closeConn = c.closeConn := by
+  unfold Client.start
+  split
+  · rfl
+  · split
+    · split
+      · rfl
+      · dsimp only
+        split
+        · rfl
+        · split
+          · exact (connWrite_closeConn _ raw).trans rfl
+          · exact (connWrite_closeConn _ raw).trans rfl
+    · exact connWrite_closeConn c raw
+
+theorem tick_closeConn (S) (c : Client) (hi : TInv c) (hf : FromStarts S c) (t : Nat) :
+    (c.tick t).1.closeConn = c.closeConn := by
+  unfold Client.tick
+  simp only
+  have s := callbacks_spec S (((c.agent.collect t).2.2).map (fun e => (e.id, CEv.timeout)))
+    { c with now := t, agent := (c.agent.collect t).1 } (tinv_congr c _ rfl hi) (fun p hp => hf p hp)
+  exact s.cfgSame.2.1
+
+theorem deliver_closeConn (S) (c : Client) (hi : TInv c) (hf : FromStarts S c) (d : Bytes) :
+    (c.deliver d).1.closeConn = c.closeConn := by
+  unfold Client.deliver
+  split
+  · unfold Client.deliverDecoded
+    split
+    · rfl
+    · have s := callback_spec S { c with agent := (c.agent.process (readerMsg.readFrom d).1.tid).1 }
+        (tinv_congr c _ rfl hi) (fun p hp => hf p hp) (readerMsg.readFrom d).1.tid (.msg (readerMsg.readFrom d).1.raw)
+      exact s.cfgSame.2.1
+  · rfl
+/-- the connection-ownership option never changes: no operation alters `closeConn` -/
+theorem step_closeConn (S) (c : Client) (hi : TInv c) (hf : FromStarts S c) (op : COp) (hop : op ≠ .close) :
+    (c.step op).1.closeConn = c.closeConn := by
+  cases op with
+  | start id raw h => exact start_closeConn c id raw h
+  | deliver d =>
+    have e : c.step (.deliver d) = ((c.deliver d).1, none, (c.deliver d).2) := rfl
+    rw [e]; dsimp only; exact deliver_closeConn S c hi hf d
+  | tick t =>
+    have e : c.step (.tick t) = ((c.tick t).1, none, (c.tick t).2) := rfl
+    rw [e]; dsimp only; exact tick_closeConn S c hi hf t
+  | clock t => rfl
+  | failWrite id => rfl
+  | setRTO r => rfl
+  | close => exact absurd rfl hop
+
+/-- "… unless WithNoConnClose was given (then never)", for whole histories: a client that does not own its
+    connection never closes it, whatever operations and however many Close calls the history contains; a client that
+    owns it closes it exactly once in every history that contains a Close -/
+theorem conn_close_ownership (ops : List COp) : ∀ (S) (c : Client), TInv c → FromStarts S c → c.closed = false →
+    (c.closeConn = false → connCloses (allOuts (run c ops).2) = 0) ∧
+    (c.closeConn = true → COp.close ∈ ops → connCloses (allOuts (run c ops).2) = 1) := by
+  induction ops with
+  | nil => intro S c _ _ _; exact ⟨fun _ => by simp [run, allOuts, connCloses], fun _ h => by simp at h⟩
+  | cons op r ih =>
+    intro S c hi hf hc
+    have hsplit : connCloses (allOuts (run c (op :: r)).2) =
+        connCloses (c.step op).2.2 + connCloses (allOuts (run (c.step op).1 r).2) := by
+      simp only [run, allOuts, connCloses, List.flatMap_cons, List.filter_append, List.length_append]
+    rw [hsplit]
+    by_cases hop : op = .close
+    · subst hop
+      obtain ⟨k, _⟩ := close_once c
+      obtain ⟨_, _, _, k4⟩ := k hc
+      obtain ⟨b1, b2⟩ := close_establishes c hc
+      have hz := (closed_forever r (c.close).1 b1 b2).1
+      have e : c.step .close = c.close := rfl
+      have k4' : connCloses (c.close).2.2 = if c.closeConn then 1 else 0 := k4
+      rw [e, hz, k4']
+      simp only [connCloses, List.filter_nil, List.length_nil, Nat.add_zero]
+      exact ⟨fun h => by simp [h], fun h _ => by simp [h]⟩
+    · obtain ⟨n1, n2⟩ := step_no_connClose S c hi hf op hop
+      obtain ⟨s1, s2, _⟩ := step_spec S c hi hf op
+      have hcc := step_closeConn S c hi hf op hop
+      have h0 : connCloses (c.step op).2.2 = 0 := by
+        unfold connCloses
+        rw [List.length_eq_zero_iff, List.filter_eq_nil_iff]
+        intro x hx hb
+        have : x = COut.connClose := by simpa using hb
+        exact n1 (this ▸ hx)
+      obtain ⟨i1, i2⟩ := ih _ (c.step op).1 s1 s2 (by rw [n2]; exact hc)
+      rw [h0, Nat.zero_add]
+      refine ⟨fun h => i1 (by rw [hcc]; exact h), fun h hm => i2 (by rw [hcc]; exact h) ?_⟩
+      rcases List.mem_cons.1 hm with hm | hm
+      · exact absurd hm.symm hop
+      · exact hm
+
 end Stun.C15
